@@ -117,6 +117,9 @@ def compare(ck, prog, text, preds, real, model, key_of, extra=None, ignore_empty
     rp = {'program': text, 'pred': p.name, 'expected_rows': exp_rows[:50]}
     if extra:
       rp.update(extra)
+    if r['kind'] == 'too_big':
+      ck.features['capacity-skipped'] += 1      # the plan exceeds the harness's SQLite budget: abandoned, not judged
+      continue
     if r['kind'] != 'ok':
       ck.violation(key_of(p, 'outcome:' + r['kind']),
                    'predicate %s: real pipeline gives %s (%s) but the program is valid; expected %d rows' % (
